@@ -1,0 +1,243 @@
+//! Verification hooks (only compiled with the `verif` feature).
+//!
+//! Nothing in here changes debugger behaviour unless a harness explicitly installs a backend,
+//! a scheduler or a probe sink. Without them every function forwards to the real implementation
+//! or is a no-op.
+
+use nix::unistd::Pid;
+use std::cell::RefCell;
+
+/// Kernel interface used by the tracer core. A harness may install a simulated implementation
+/// for the current thread, see [`install_kernel`].
+#[allow(clippy::missing_safety_doc)]
+pub trait Kernel {
+    fn waitpid(
+        &mut self,
+        pid: Option<Pid>,
+        flags: Option<nix::sys::wait::WaitPidFlag>,
+    ) -> nix::Result<nix::sys::wait::WaitStatus>;
+    fn cont(&mut self, pid: Pid, sig: Option<nix::sys::signal::Signal>) -> nix::Result<()>;
+    fn step(&mut self, pid: Pid, sig: Option<nix::sys::signal::Signal>) -> nix::Result<()>;
+    fn syscall(&mut self, pid: Pid, sig: Option<nix::sys::signal::Signal>) -> nix::Result<()>;
+    fn interrupt(&mut self, pid: Pid) -> nix::Result<()>;
+    fn detach(&mut self, pid: Pid, sig: Option<nix::sys::signal::Signal>) -> nix::Result<()>;
+    fn getevent(&mut self, pid: Pid) -> nix::Result<nix::libc::c_long>;
+    fn getsiginfo(&mut self, pid: Pid) -> nix::Result<nix::libc::siginfo_t>;
+    fn getregs(&mut self, pid: Pid) -> nix::Result<nix::libc::user_regs_struct>;
+    fn setregs(&mut self, pid: Pid, regs: nix::libc::user_regs_struct) -> nix::Result<()>;
+    fn read(&mut self, pid: Pid, addr: usize) -> nix::Result<nix::libc::c_long>;
+    fn write(&mut self, pid: Pid, addr: usize, data: usize) -> nix::Result<()>;
+    fn read_user(&mut self, pid: Pid, offset: usize) -> nix::Result<nix::libc::c_long>;
+    fn write_user(&mut self, pid: Pid, offset: usize, data: usize) -> nix::Result<()>;
+}
+
+thread_local! {
+    static BACKEND: RefCell<Option<Box<dyn Kernel>>> = const { RefCell::new(None) };
+}
+
+/// Install (or remove) a kernel backend for the current thread.
+pub fn install_kernel(k: Option<Box<dyn Kernel>>) -> Option<Box<dyn Kernel>> {
+    BACKEND.with(|b| std::mem::replace(&mut *b.borrow_mut(), k))
+}
+
+fn with<R>(f: impl FnOnce(&mut dyn Kernel) -> R) -> Option<R> {
+    BACKEND.with(|b| {
+        let mut b = b.borrow_mut();
+        b.as_mut().map(|k| f(k.as_mut()))
+    })
+}
+
+/// Drop-in replacement of `nix::sys` for the modules of the tracer core.
+pub mod sys {
+    pub use nix::sys::signal;
+
+    pub mod wait {
+        use super::super::with;
+        pub use nix::sys::wait::{WaitPidFlag, WaitStatus};
+        use nix::unistd::Pid;
+
+        pub fn waitpid<P: Into<Option<Pid>>>(
+            pid: P,
+            options: Option<WaitPidFlag>,
+        ) -> nix::Result<WaitStatus> {
+            let pid = pid.into();
+            if let Some(r) = with(|k| k.waitpid(pid, options)) {
+                return r;
+            }
+            nix::sys::wait::waitpid(pid, options)
+        }
+    }
+
+    #[allow(clippy::missing_safety_doc)]
+    pub mod ptrace {
+        use super::super::with;
+        use nix::libc::{c_long, c_void, siginfo_t, user_regs_struct};
+        pub use nix::sys::ptrace::AddressType;
+        use nix::sys::signal::Signal;
+        use nix::unistd::Pid;
+
+        pub fn cont<T: Into<Option<Signal>>>(pid: Pid, sig: T) -> nix::Result<()> {
+            let sig = sig.into();
+            if let Some(r) = with(|k| k.cont(pid, sig)) {
+                return r;
+            }
+            nix::sys::ptrace::cont(pid, sig)
+        }
+
+        pub fn step<T: Into<Option<Signal>>>(pid: Pid, sig: T) -> nix::Result<()> {
+            let sig = sig.into();
+            if let Some(r) = with(|k| k.step(pid, sig)) {
+                return r;
+            }
+            nix::sys::ptrace::step(pid, sig)
+        }
+
+        pub fn syscall<T: Into<Option<Signal>>>(pid: Pid, sig: T) -> nix::Result<()> {
+            let sig = sig.into();
+            if let Some(r) = with(|k| k.syscall(pid, sig)) {
+                return r;
+            }
+            nix::sys::ptrace::syscall(pid, sig)
+        }
+
+        pub fn detach<T: Into<Option<Signal>>>(pid: Pid, sig: T) -> nix::Result<()> {
+            let sig = sig.into();
+            if let Some(r) = with(|k| k.detach(pid, sig)) {
+                return r;
+            }
+            nix::sys::ptrace::detach(pid, sig)
+        }
+
+        pub fn interrupt(pid: Pid) -> nix::Result<()> {
+            if let Some(r) = with(|k| k.interrupt(pid)) {
+                return r;
+            }
+            nix::sys::ptrace::interrupt(pid)
+        }
+
+        pub fn getevent(pid: Pid) -> nix::Result<c_long> {
+            if let Some(r) = with(|k| k.getevent(pid)) {
+                return r;
+            }
+            nix::sys::ptrace::getevent(pid)
+        }
+
+        pub fn getsiginfo(pid: Pid) -> nix::Result<siginfo_t> {
+            if let Some(r) = with(|k| k.getsiginfo(pid)) {
+                return r;
+            }
+            nix::sys::ptrace::getsiginfo(pid)
+        }
+
+        pub fn getregs(pid: Pid) -> nix::Result<user_regs_struct> {
+            if let Some(r) = with(|k| k.getregs(pid)) {
+                return r;
+            }
+            nix::sys::ptrace::getregs(pid)
+        }
+
+        pub fn setregs(pid: Pid, regs: user_regs_struct) -> nix::Result<()> {
+            if let Some(r) = with(|k| k.setregs(pid, regs)) {
+                return r;
+            }
+            nix::sys::ptrace::setregs(pid, regs)
+        }
+
+        pub fn read(pid: Pid, addr: AddressType) -> nix::Result<c_long> {
+            if let Some(r) = with(|k| k.read(pid, addr as usize)) {
+                return r;
+            }
+            nix::sys::ptrace::read(pid, addr)
+        }
+
+        pub unsafe fn write(pid: Pid, addr: AddressType, data: *mut c_void) -> nix::Result<()> {
+            if let Some(r) = with(|k| k.write(pid, addr as usize, data as usize)) {
+                return r;
+            }
+            unsafe { nix::sys::ptrace::write(pid, addr, data) }
+        }
+
+        pub fn read_user(pid: Pid, offset: AddressType) -> nix::Result<c_long> {
+            if let Some(r) = with(|k| k.read_user(pid, offset as usize)) {
+                return r;
+            }
+            nix::sys::ptrace::read_user(pid, offset)
+        }
+
+        pub unsafe fn write_user(
+            pid: Pid,
+            offset: AddressType,
+            data: *mut c_void,
+        ) -> nix::Result<()> {
+            if let Some(r) = with(|k| k.write_user(pid, offset as usize, data as usize)) {
+                return r;
+            }
+            unsafe { nix::sys::ptrace::write_user(pid, offset, data) }
+        }
+    }
+}
+
+/// Named schedule points. No-ops unless a harness installs a controller.
+pub mod sched {
+    use std::sync::{Arc, RwLock};
+
+    pub type Controller = Arc<dyn Fn(&'static str) + Send + Sync>;
+
+    static CONTROLLER: RwLock<Option<Controller>> = RwLock::new(None);
+
+    pub fn install(c: Option<Controller>) {
+        *CONTROLLER.write().unwrap() = c;
+    }
+
+    #[inline]
+    pub fn point(name: &'static str) {
+        let c = CONTROLLER.read().unwrap().clone();
+        if let Some(c) = c {
+            c(name)
+        }
+    }
+}
+
+/// Bounds probes: record (site, have, need) whenever an unchecked read would need more bytes
+/// than were fetched. Never panics and never changes the result of the read.
+pub mod probe {
+    use std::sync::Mutex;
+
+    static RECORDS: Mutex<Vec<(&'static str, usize, usize)>> = Mutex::new(Vec::new());
+
+    #[inline]
+    pub fn check(site: &'static str, have: usize, need: usize) {
+        if need > have {
+            let mut r = RECORDS.lock().unwrap();
+            if r.len() < 4096 {
+                r.push((site, have, need));
+            }
+        }
+    }
+
+    pub fn take() -> Vec<(&'static str, usize, usize)> {
+        std::mem::take(&mut *RECORDS.lock().unwrap())
+    }
+}
+
+/// Iteration-order control for collections whose order is unspecified in production.
+pub mod order {
+    use std::cell::RefCell;
+
+    thread_local! {
+        static PERMUTE: RefCell<Option<Box<dyn FnMut(usize) -> Vec<usize>>>> = const { RefCell::new(None) };
+    }
+
+    /// Install a function that, given a length, returns a permutation of `0..len`.
+    pub fn install(f: Option<Box<dyn FnMut(usize) -> Vec<usize>>>) {
+        PERMUTE.with(|p| *p.borrow_mut() = f);
+    }
+
+    pub fn is_installed() -> bool {
+        PERMUTE.with(|p| p.borrow().is_some())
+    }
+
+    pub fn permutation(len: usize) -> Option<Vec<usize>> {
+        PERMUTE.with(|p| p.borrow_mut().as_mut().map(|f| f(len)))
+    }
+}
